@@ -50,19 +50,30 @@ fn main() {
         }
     }
     util::quiet_panics();
-    match suite.as_str() {
-        "backoff" => backoff::run(&cfg),
-        "wire" => wire::run(&cfg),
-        "codec" => codec::run(&cfg),
-        "topic" => topic::run(&cfg),
-        "fanout" => fanout::run(&cfg),
-        "pubsub" => pubsub::run(&cfg),
-        "reqrep" => reqrep::run(&cfg),
-        "e2epub" => e2epub::run(&cfg),
-        "e2ereq" => e2ereq::run(&cfg),
-        "registry" => registry::run(&cfg),
-        "e2etls" => e2etls::run(&cfg),
-        "e2erec" => e2erec::run(&cfg),
+    let r = util::catch(|| run_suite(&suite, &cfg));
+    if let Err(p) = r {
+        let at = util::LAST_PANIC_AT.lock().map(|g| g.clone()).unwrap_or_default();
+        println!("HARNESS-PANIC in suite {suite} at {at}: {p}");
+        std::process::exit(101);
+    }
+}
+
+fn run_suite(suite: &str, cfg: &Cfg) {
+    let cfg = cfg.clone();
+    let cfg = &cfg;
+    match suite {
+        "backoff" => backoff::run(cfg),
+        "wire" => wire::run(cfg),
+        "codec" => codec::run(cfg),
+        "topic" => topic::run(cfg),
+        "fanout" => fanout::run(cfg),
+        "pubsub" => pubsub::run(cfg),
+        "reqrep" => reqrep::run(cfg),
+        "e2epub" => e2epub::run(cfg),
+        "e2ereq" => e2ereq::run(cfg),
+        "registry" => registry::run(cfg),
+        "e2etls" => e2etls::run(cfg),
+        "e2erec" => e2erec::run(cfg),
         other => { eprintln!("unknown suite {other}"); std::process::exit(2); }
     }
 }
